@@ -78,7 +78,7 @@ func FromEnv() *Ctx {
 		NShards:  envInt("VF_NSHARDS", 1),
 		Start:    envInt("VF_START", 0),
 		Only:     envInt("VF_ONLY", -1),
-		Part:     os.Getenv("VF_PART"),
+		Part:     os.Getenv("VF_PROP"),
 		counts:   map[string]int64{},
 		outcomes: map[uint64]struct{}{},
 		classes:  map[string]int64{},
